@@ -1068,6 +1068,42 @@ func (g *gen) genOp(name string) {
 			return
 		}
 		g.ops = append(g.ops, Op{Type: "renotify", Kind: kind, Key: keys[g.pick(len(keys))]})
+	case "neutral_update":
+		// updates that pass the watcher predicates but do not change any effective content
+		switch g.pick(4) {
+		case 0:
+			keys := g.keys(KIngress)
+			if len(keys) == 0 {
+				return
+			}
+			cur := g.objs[KIngress][keys[g.pick(len(keys))]].(*networking.Ingress).DeepCopy()
+			if cur.Annotations == nil {
+				cur.Annotations = map[string]string{}
+			}
+			cur.Annotations["example.com/note"] = fmt.Sprint(g.pick(1000))
+			g.emit(cur, "foreign annotation")
+		case 1:
+			keys := g.keys(KSecret)
+			if len(keys) == 0 {
+				return
+			}
+			g.emit(g.objs[KSecret][keys[g.pick(len(keys))]].(*api.Secret).DeepCopy(), "identical content")
+		case 2:
+			keys := g.keys(KService)
+			if len(keys) == 0 {
+				return
+			}
+			cur := g.objs[KService][keys[g.pick(len(keys))]].(*api.Service).DeepCopy()
+			if cur.Annotations == nil {
+				cur.Annotations = map[string]string{}
+			}
+			cur.Annotations["example.com/note"] = fmt.Sprint(g.pick(1000))
+			g.emit(cur, "foreign annotation")
+		case 3:
+			if cur, ok := g.objs[KConfigMap][globalConfigMapName].(*api.ConfigMap); ok {
+				g.emit(cur.DeepCopy(), "identical data")
+			}
+		}
 	case "advance":
 		g.ops = append(g.ops, Op{Type: "advance", Ms: []int{1, 50, 200, 1000, 2500, 6000, 31000}[g.pick(7)]})
 	}
